@@ -123,8 +123,14 @@ let mm name f r = let a = rd_mat r in let b = rd_mat r in put_res put_mat (f fop
 let ms f r = let a = rd_mat r in let s = num r in put_res put_mat (f fops a s)
 let vv f r = let u = rd_vec r in let v = rd_vec r in put_res put_vec (f fops u v)
 
+(* printouts (operator<<): one word per inserted string, numbers as numbers, the item count first *)
+let put_ptoks l = put_w "P"; put_i (List.length l);
+  List.iter (function PNum x -> put_f x | PLP -> put_w "LP" | PCM -> put_w "CM" | PRP -> put_w "RP" | PLC -> put_w "LC"
+    | PRC -> put_w "RC" | PLF -> put_w "LF" | PRF -> put_w "RF" | PBAR -> put_w "BAR" | PTAB -> put_w "TAB" | PNL -> put_w "NL") l
 let dispatch op r =
   match op with
+  | "v_print" -> let v = rd_vec r in put_res put_ptoks (v_print v)
+  | "m_print" -> let a = rd_mat r in put_res put_ptoks (m_print a)
   | "m_plus" -> mm "" m_plus r
   | "m_minus" -> mm "" m_minus r
   | "m_op_plus" -> mm "" m_op_plus r
